@@ -93,7 +93,7 @@ def main() -> int:
         info[j["id"]] = {"label": label, "cfg": {}, "features": {"sharing"}}
         jobs.append(j)
     for k, (label, d) in enumerate(docs.interplay_docs()):
-        if not d["components"]["schemas"] or (quick and k % 3 and "enum_same_class_name" not in label):
+        if not d["components"]["schemas"] or (quick and k % 3 and "enum_same_class_name" not in label and "redeclared_required" not in label):
             continue
         j = run.job(d, want=["manifest"], plan={"fn": "models", "args": {"seed": seed(), "per_model": 8}}, cfg={"literal_enums": k % 2 == 0})
         info[j["id"]] = {"label": label, "cfg": {"literal_enums": k % 2 == 0}, "features": {"interplay", label.split(":")[1].rsplit("_", 1)[0]}}
